@@ -25,6 +25,13 @@ def watchPeers : List Nat → List (List Nat) → List PeerEv
     let d := peersDiff old snap
     d.1.map .join ++ d.2.1.map .leave ++ watchPeers d.2.2 rest
 
+/-- A watcher started on a topic of an adapter that has been used before. `shared` is the membership
+the adapter's cached topic object last saw (through any earlier watcher). After the `fix:` commit
+(finding F24) every watcher follows the membership on its own and starts from nothing; before it the
+list was kept in the topic object shared by all watchers, so a later watcher started from `shared`. -/
+def laterWatcher (pinnedShared : Bool) («shared» : List Nat) (snaps : List (List Nat)) : List PeerEv :=
+  watchPeers (if pinnedShared then «shared» else []) snaps
+
 /-- folding the reported events over a membership set -/
 def applyEv (m : List Nat) : PeerEv → List Nat
   | .join p => if m.contains p then m else m ++ [p]
